@@ -2,6 +2,8 @@ import ast
 """C18 -- nearest-neighbour analysis equals brute force, invariant under rigid motion"""
 from .common import *
 from . import C06 as _geom
+from . import C05 as _c05
+from . import C08 as _c08
 
 TITLE = "Nearest-neighbour analysis equals brute force, invariant under rigid motion"
 EXPLANATION = (
@@ -248,6 +250,9 @@ def _obligations():
     return [
         Obligation("O18.2", "row-space typing, same feature value, tree/query lists, distance/offset scaling, R_a^-1 frame, relative orientation, ids", o182, floor=25),
         Obligation("O18.3", "get_nn_stats: columns are the results of the two passes, same rows, same order (no re-sorting)", o183, floor=17),
+        Obligation("O18.4", "complete positions: get_coordinates = (x,y,z) + shifts, nothing else (shared with C05)", _c05.o51, floor=9),
+        Obligation("O18.5", "per-tomogram subsets: get_motl_subset selects exactly feature == value (shared with C08)", _c08.o81, floor=10),
+        Obligation("O18.8", "z-axis images used for rot_x/y/z: unit image of e_z under the rotation (shared with C06)", _geom.o61, floor=3),
         Obligation("O18.6", "angular distance is the geodesic distance of SO(3) (shared with C06)", _geom.o62, floor=3),
         Obligation("O18.7", "compare_rotations returns (angular, cone, in-plane) distances (shared with C06)", _geom.o63, floor=40),
     ]
